@@ -233,6 +233,45 @@ def run(ctx, out):
         if 'y' not in before or rep.y != 5 or cp.y != 5 or 'y' not in inst.dict(set_only=True) or not (rep == inst):
             out.violation('C16:assignment-not-recorded', f'{label}: after inst.y = 5 on {inst!r}: set-record {sorted(before)}, replace() gives {rep!r}, copy gives {cp!r}, '
                           f'dict(set_only=True) = {inst.dict(set_only=True)!r}', {'case': label})
+    # fields that are not constructor arguments (init=False): copy / deepcopy / replace after one has been assigned,
+    # and when a hook derives one from the others
+    class NI(pane.PaneBase, frozen=False):
+        x: int = 0
+        y: int = pane.field(init=False, default=1)
+
+    class ND(pane.PaneBase, frozen=False):
+        w: int = 1
+        a: int = pane.field(init=False, default=0)
+
+        def __post_init__(self):
+            self.a = self.w * 2
+    for label, mk, change, want in (
+            ('init=False field assigned', lambda: NI(1), {'x': 2}, (2, 5)), ('init=False field assigned, defaults otherwise', lambda: NI(), {'x': 3}, (3, 5)),
+            ('init=False field left alone', lambda: NI(4), {'x': 2}, (2, 1))):
+        n += 1
+        inst = mk()
+        if 'left alone' not in label:
+            inst.y = 5
+        try:
+            results = {'copy': copy.copy(inst), 'deepcopy': copy.deepcopy(inst), 'replace()': inst.__replace__()}
+            changed = inst.__replace__(**change)
+        except Exception as e:
+            out.violation(f'C16:copy-with-non-init-field:{type(e).__name__}', f'{label}: copying / replacing {inst!r} (set-record {sorted(inst.__pane_set__)}) raised '
+                          f'{type(e).__name__}: {str(e)[:160]}', {'case': label})
+            continue
+        for how, r in results.items():
+            if not (r == inst) or set(r.__pane_set__) != set(inst.__pane_set__) or r.y != inst.y:
+                out.violation('C16:copy-with-non-init-field', f'{label}: {how} of {inst!r} / {sorted(inst.__pane_set__)} gave {r!r} / {sorted(r.__pane_set__)}', {'case': label, 'how': how})
+        if (changed.x, changed.y) != want:
+            out.violation('C16:replace-with-non-init-field', f'{label}: replace({change}) of {inst!r} gave {changed!r}, expected x, y = {want}', {'case': label})
+    n += 1
+    d = ND(2)
+    try:
+        got = [(r.w, r.a) for r in (copy.copy(d), copy.deepcopy(d), d.__replace__(), d.__replace__(w=5))]
+        if got != [(2, 4), (2, 4), (2, 4), (5, 10)]:
+            out.violation('C16:derived-non-init-field', f'copy, deepcopy, replace(), replace(w=5) of {d!r}, whose hook sets a = 2 * w, gave (w, a) = {got}', {'case': 'derived'})
+    except Exception as e:
+        out.violation(f'C16:derived-non-init-field:{type(e).__name__}', f'copying / replacing {d!r} raised {type(e).__name__}: {str(e)[:160]}', {'case': 'derived'})
     out.evaluations += n
     out.sample({'case': items[7][1][:5], 'observed (==, <, <=, >, >=)': list(items[7][1][5])})
     if any(f in ctx['failed_files'] for f in ('Model/ClassSem.v', 'Run/AgreeSem.v')):
